@@ -4,12 +4,13 @@
 import json, os, re, subprocess, sys, glob
 VERIF = "/verif"
 EXTRA = {
-    "R2-C02-1": ["C13"], "R2-C05-1": ["C14"], "R2-C13-1": ["C05"], "R2-C04-1": ["C05", "C14"], "R2-C04-2": ["C18"], "R2-C07-2": ["C08"], "R2-C01-1": ["C02"], "R2-C02-2": ["C08"],  # additional checks that share the engine with the seed's own property
+    "R2-C02-1": ["C13"], "R2-C05-1": ["C14"], "R2-C13-1": ["C05"], "R2-C04-1": ["C05", "C14"], "R2-C04-2": ["C18"], "R2-C07-2": ["C08"], "R2-C01-1": ["C02"], "R2-C02-2": ["C08"], "R2-C03-1": ["C15"],  # additional checks that share the engine with the seed's own property
     "C01-2": ["C02"], "C03-2": ["C13", "C15"], "C05-1": ["C14"], "C05-2": ["C14"], "C14-2": ["C05"], "C02-1": ["C01"], "C12-1": ["C17"],
 }
 SELF = {  # own mutations: file -> checks
     "c03-any-dep.diff": ["C03"], "c03-extra-worker.diff": ["C03"], "c04-no-cancel-descendants.diff": ["C04"],
     "c10-no-inode-check.diff": ["C10"], "c10-close-before-remove.diff": ["C10"], "c10-cancel-removes.diff": ["C10"], "c10-shared-lock.diff": ["C10"],
+    "revert-a53b285-file-restore.diff": ["C06", "C02"], "revert-d4ab3f5-dup-deps.diff": ["C20"],
 }
 def sh(cmd, **kw):
     return subprocess.run(cmd, shell=True, capture_output=True, text=True, **kw)
